@@ -8,6 +8,29 @@ Open Scope Q_scope.
 Definition fclamp (l x h : flt) : flt :=
   if fltb x l then l else if fltb h x then h else x.
 
+(* a <= b < a + g  (or the same infinity) *)
+Definition fnear (g : Q) (a b : flt) : Prop :=
+  match a, b with
+  | Fin x, Fin y => x <= y /\ y < x + g
+  | PInf, PInf | NInf, NInf => True
+  | _, _ => False
+  end.
+
+(* less than one granule apart (or the same infinity) *)
+Definition fclose (g : Q) (a b : flt) : Prop :=
+  match a, b with
+  | Fin x, Fin y => Qabs (x - y) < g
+  | PInf, PInf | NInf, NInf => True
+  | _, _ => False
+  end.
+
+Ltac flt_crush :=
+  flt_split; cbn [fltb fle flt_lt feq fnear finite] in *; try tauto;
+  repeat (match goal with
+          | |- context [Qltb ?a ?b] => let E := fresh "E" in destruct (Qltb a b) eqn:E
+          end; cbn [fltb fle flt_lt feq fnear finite] in *);
+  q_reflect; try tauto; try lra.
+
 Lemma clamp_val l v h : val (clamp l v h) = fclamp (val l) (val v) (val h).
 Proof.
   unfold clamp, fclamp, nlt, ngt.
@@ -15,26 +38,9 @@ Proof.
   destruct (fltb (val h) (val v)); reflexivity.
 Qed.
 
-Lemma fclamp_cases l x h :
-  (fclamp l x h = l /\ flt_lt x l) \/
-  (fclamp l x h = h /\ fle l x /\ flt_lt h x) \/
-  (fclamp l x h = x /\ fle l x /\ fle x h).
-Proof.
-  unfold fclamp. destruct (fltb x l) eqn:E1.
-  - left. split; [reflexivity|]. apply fltb_lt. exact E1.
-  - apply fltb_ge in E1. destruct (fltb h x) eqn:E2.
-    + right; left. split; [reflexivity|]. split; [exact E1|]. apply fltb_lt. exact E2.
-    + right; right. apply fltb_ge in E2. auto.
-Qed.
-
 (* low <= high: the result lies in [low, high] *)
 Lemma fclamp_bounds l x h : fle l h -> fle l (fclamp l x h) /\ fle (fclamp l x h) h.
-Proof.
-  intros Hlh. destruct (fclamp_cases l x h) as [[-> _]|[[-> [_ _]]|[-> [H1 H2]]]].
-  - split; [apply fle_refl|exact Hlh].
-  - split; [exact Hlh|apply fle_refl].
-  - auto.
-Qed.
+Proof. intros Hlh. unfold fclamp. split; flt_crush. Qed.
 
 (* a value inside [low, high] is returned itself (the very same python object) *)
 Lemma clamp_id l v h : fle (val l) (val v) -> fle (val v) (val h) -> clamp l v h = v.
@@ -43,16 +49,435 @@ Proof.
   apply fltb_ge in H1. apply fltb_ge in H2. rewrite H1, H2. reflexivity.
 Qed.
 
-(* two nested clamps whose intervals intersect: the result lies in the inner one as well *)
+(* two nested clamps whose intervals intersect: the result lies in the inner interval as well *)
 Lemma fclamp2_window l h mn mx x :
   fle l h -> fle mn mx -> fle l mx -> fle mn h ->
   fle l (fclamp mn (fclamp l x h) mx) /\ fle (fclamp mn (fclamp l x h) mx) h.
+Proof. intros Hlh Hm Hlmx Hmnh. unfold fclamp. split; flt_crush. Qed.
+
+(* clamping is monotone and does not stretch distances *)
+Lemma fclamp_near g l h a b : 0 < g -> fle l h -> fnear g a b ->
+  fnear g (fclamp l a h) (fclamp l b h).
+Proof. intros Hg Hlh Hn. unfold fclamp. flt_crush. Qed.
+
+Lemma fclamp_feq l x x' h : feq x x' -> feq (fclamp l x h) (fclamp l x' h).
 Proof.
-  intros Hlh Hm Hlmx Hmnh.
-  destruct (fclamp_bounds l x h Hlh) as [B1 B2].
-  destruct (fclamp_cases mn (fclamp l x h) mx) as [[-> _]|[[-> [_ Hc]]|[-> _]]].
-  - split; [|exact Hmnh].
-    destruct (fclamp_cases mn (fclamp l x h) mx) as [[_ Hc]|[[_ [Hc _]]|[_ [Hc _]]]].
-    + apply flt_le. eapply fle_lt_trans; [exact B1|exact Hc].
-    + eapply fle_trans; [exact B1|]. (* mn <= inner, l <= inner: need l <= mn? not nec. *)
-      Abort.
+  intros Hx. unfold fclamp.
+  rewrite (fltb_feq x x' l l Hx (feq_refl l)), (fltb_feq h h x x' (feq_refl h) Hx).
+  destruct (fltb x' l); [apply feq_refl|]. destruct (fltb h x'); [apply feq_refl|exact Hx].
+Qed.
+
+Lemma fnear_close g a b : fnear g a b -> fclose g b a /\ fclose g a b.
+Proof.
+  destruct a, b; cbn [fnear fclose]; try tauto. intros [H1 H2]. split; apply Qabs_Qlt_condition; split; lra.
+Qed.
+
+Lemma fclose_sym g a b : fclose g a b -> fclose g b a.
+Proof.
+  destruct a, b; cbn [fclose]; try tauto. intros H.
+  assert (E : q0 - q == - (q - q0)) by ring. rewrite E, Qabs_opp. exact H.
+Qed.
+
+Lemma fclose_refl g a : 0 < g -> fclose g a a.
+Proof.
+  intros Hg. destruct a; cbn [fclose]; try exact I.
+  assert (E : q - q == 0) by ring. rewrite E. exact Hg.
+Qed.
+
+Lemma fclose_feq g a a' b b' : feq a a' -> feq b b' -> fclose g a b -> fclose g a' b'.
+Proof.
+  destruct a, a', b, b'; cbn [fclose feq]; try tauto. intros H1 H2 H. rewrite <- H1, <- H2. exact H.
+Qed.
+
+(* ------------------------------------------------------------------ + and - on values *)
+Lemma nsub_flt a b c : nsub a b = Ok c -> exists r, fsub (val a) (val b) = Ok r /\ feq (val c) r.
+Proof.
+  intros H. destruct (fsub (val a) (val b)) as [r|e] eqn:E.
+  - exists r. split; [reflexivity|]. eapply nsub_feq; eassumption.
+  - exfalso. destruct a as [x|fa], b as [y|fb]; cbn [nsub] in H; unfold lift2 in H;
+      try (rewrite E in H; discriminate). cbn in E. discriminate.
+Qed.
+
+Lemma nadd_flt a b c : nadd a b = Ok c -> exists r, fadd (val a) (val b) = Ok r /\ feq (val c) r.
+Proof.
+  intros H. destruct (fadd (val a) (val b)) as [r|e] eqn:E.
+  - exists r. split; [reflexivity|]. eapply nadd_feq; eassumption.
+  - exfalso. destruct a as [x|fa], b as [y|fb]; cbn [nadd] in H; unfold lift2 in H;
+      try (rewrite E in H; discriminate). cbn in E. discriminate.
+Qed.
+
+Definition positive (a : num) : Prop := flt_lt (Fin 0) (val a).
+
+Lemma ngt0_positive a : ngt a (PInt 0) = true <-> positive a.
+Proof. unfold ngt, positive. cbn [val]. change (inject_Z 0) with 0. apply fltb_lt. Qed.
+
+(* supply - backlog <= supply + surplus whenever both can be computed and backlog, surplus > 0 *)
+Lemma window_ordered s b sp lo hi :
+  nsub s b = Ok lo -> nadd s sp = Ok hi -> positive b -> positive sp -> fle (val lo) (val hi).
+Proof.
+  intros Hlo Hhi Hb Hsp. unfold positive in *.
+  destruct (nsub_flt _ _ _ Hlo) as [rl [El Fl]]. destruct (nadd_flt _ _ _ Hhi) as [rh [Eh Fh]].
+  apply (fle_feq_l rl); [apply feq_sym; exact Fl|]. apply (fle_feq_r _ rh); [apply feq_sym; exact Fh|].
+  clear Fl Fh Hlo Hhi. destruct (val s), (val b), (val sp); cbn in *; try tauto; try discriminate;
+    inversion El; inversion Eh; subst; cbn; try exact I. lra.
+Qed.
+
+(* with a finite supply the window always exists, and its edges straddle the supply *)
+Lemma window_total s b sp : finite (val s) ->
+  exists lo hi, nsub s b = Ok lo /\ nadd s sp = Ok hi.
+Proof.
+  intros Hs. destruct (nsub_total_l s b Hs) as [lo Hlo]. destruct (nadd_total_l s sp Hs) as [hi Hhi]. eauto.
+Qed.
+
+Lemma window_finite_lo s b lo : finite (val s) -> positive b -> nsub s b = Ok lo -> flt_lt (val lo) PInf.
+Proof.
+  intros Hs Hb Hlo. destruct (nsub_flt _ _ _ Hlo) as [r [E Fq]]. unfold positive in Hb.
+  destruct (val s), (val b); cbn in *; try tauto; inversion E; subst; destruct (val lo); cbn in *; tauto.
+Qed.
+
+Lemma window_finite_hi s sp hi : finite (val s) -> positive sp -> nadd s sp = Ok hi -> flt_lt NInf (val hi).
+Proof.
+  intros Hs Hb Hhi. destruct (nadd_flt _ _ _ Hhi) as [r [E Fq]]. unfold positive in Hb.
+  destruct (val s), (val sp); cbn in *; try tauto; inversion E; subst; destruct (val hi); cbn in *; tauto.
+Qed.
+
+(* ------------------------------------------------------------------ constructor validation *)
+Record valid (P : params) : Prop := mkValid {
+  v_order : fle (val (minimum P)) (val (maximum P));
+  v_surplus : positive (surplus P);
+  v_backlog : positive (backlog P);
+  v_gran : positive (granularity P) }.
+
+Lemma accepted_valid P : accepted P = true <-> valid P.
+Proof.
+  unfold accepted. rewrite !andb_true_iff, !ngt0_positive. unfold nle. rewrite fleb_le.
+  split; [intros [[[H1 H2] H3] H4]; constructor; assumption|intros [H1 H2 H3 H4]; auto].
+Qed.
+
+Lemma construct_accepts P t : valid P -> construct P t = Ok (mkStd P (p_demand t) t).
+Proof. intros H. apply accepted_valid in H. unfold construct. rewrite H. reflexivity. Qed.
+
+Lemma construct_rejects P t : ~ valid P -> construct P t = Err EValue.
+Proof.
+  intros H. unfold construct. destruct (accepted P) eqn:E; [|reflexivity].
+  apply accepted_valid in E. contradiction.
+Qed.
+
+Lemma construct_inv P t st : construct P t = Ok st -> valid P /\ st = mkStd P (p_demand t) t.
+Proof.
+  unfold construct. destruct (accepted P) eqn:E; [|discriminate]. intros H. inversion H.
+  split; [apply accepted_valid; exact E|reflexivity].
+Qed.
+
+(* ------------------------------------------------------------------ _clamp_demand *)
+Lemma clamp_demand_inv P t v r : clamp_demand P t v = Ok r ->
+  exists lo hi, nsub (p_supply t) (backlog P) = Ok lo /\ nadd (p_supply t) (surplus P) = Ok hi
+    /\ r = clamp (minimum P) (clamp lo v hi) (maximum P).
+Proof.
+  unfold clamp_demand. destruct (nsub _ _) as [lo|] eqn:E1; cbn [bind]; [|discriminate].
+  destruct (nadd _ _) as [hi|] eqn:E2; cbn [bind]; [|discriminate].
+  intros H. inversion H. eauto.
+Qed.
+
+Lemma clamp_demand_eq P t v lo hi :
+  nsub (p_supply t) (backlog P) = Ok lo -> nadd (p_supply t) (surplus P) = Ok hi ->
+  clamp_demand P t v = Ok (clamp (minimum P) (clamp lo v hi) (maximum P)).
+Proof. intros H1 H2. unfold clamp_demand. rewrite H1, H2. reflexivity. Qed.
+
+(* the limits as the property states them *)
+Definition in_limits (P : params) (x : num) : Prop :=
+  fle (val (minimum P)) (val x) /\ fle (val x) (val (maximum P)).
+Definition in_window (lo hi x : num) : Prop := fle (val lo) (val x) /\ fle (val x) (val hi).
+(* minimum/maximum do not force the value out of the supply window: the two intervals intersect *)
+Definition window_compatible (P : params) (lo hi : num) : Prop :=
+  fle (val lo) (val (maximum P)) /\ fle (val (minimum P)) (val hi).
+
+Lemma clamp_demand_limits P t v r : valid P -> clamp_demand P t v = Ok r -> in_limits P r.
+Proof.
+  intros HV H. destruct (clamp_demand_inv _ _ _ _ H) as [lo [hi [_ [_ ->]]]].
+  unfold in_limits. rewrite clamp_val. apply fclamp_bounds. apply (v_order _ HV).
+Qed.
+
+Lemma clamp_demand_window P t v r lo hi : valid P -> clamp_demand P t v = Ok r ->
+  nsub (p_supply t) (backlog P) = Ok lo -> nadd (p_supply t) (surplus P) = Ok hi ->
+  window_compatible P lo hi -> in_window lo hi r.
+Proof.
+  intros HV H Hlo Hhi [C1 C2]. rewrite (clamp_demand_eq _ _ _ _ _ Hlo Hhi) in H. inversion H.
+  unfold in_window. rewrite !clamp_val. apply fclamp2_window; try assumption.
+  - eapply window_ordered; try eassumption; [apply (v_backlog _ HV)|apply (v_surplus _ HV)].
+  - apply (v_order _ HV).
+Qed.
+
+Lemma clamp_demand_id P t v r lo hi : clamp_demand P t v = Ok r ->
+  nsub (p_supply t) (backlog P) = Ok lo -> nadd (p_supply t) (surplus P) = Ok hi ->
+  in_window lo hi v -> in_limits P v -> r = v.
+Proof.
+  intros H Hlo Hhi [W1 W2] [L1 L2]. rewrite (clamp_demand_eq _ _ _ _ _ Hlo Hhi) in H. inversion H.
+  rewrite (clamp_id lo v hi W1 W2). apply clamp_id; assumption.
+Qed.
+
+Lemma clamp_demand_total P t v : finite (val (p_supply t)) -> exists r, clamp_demand P t v = Ok r.
+Proof.
+  intros Hs. destruct (window_total (p_supply t) (backlog P) (surplus P) Hs) as [lo [hi [H1 H2]]].
+  eexists. apply clamp_demand_eq; eassumption.
+Qed.
+
+(* value of the result in terms of the two clamps *)
+Definition fC (P : params) (lo hi : num) (x : flt) : flt :=
+  fclamp (val (minimum P)) (fclamp (val lo) x (val hi)) (val (maximum P)).
+
+Lemma clamp_demand_val P t v r lo hi : clamp_demand P t v = Ok r ->
+  nsub (p_supply t) (backlog P) = Ok lo -> nadd (p_supply t) (surplus P) = Ok hi ->
+  val r = fC P lo hi (val v).
+Proof.
+  intros H Hlo Hhi. rewrite (clamp_demand_eq _ _ _ _ _ Hlo Hhi) in H. inversion H.
+  unfold fC. rewrite !clamp_val. reflexivity.
+Qed.
+
+Lemma fC_near P lo hi g a b : valid P -> fle (val lo) (val hi) -> 0 < g ->
+  fnear g a b -> fnear g (fC P lo hi a) (fC P lo hi b).
+Proof.
+  intros HV Hw Hg Hn. unfold fC. apply fclamp_near; [exact Hg|apply (v_order _ HV)|].
+  apply fclamp_near; assumption.
+Qed.
+
+Lemma fC_feq P lo hi a b : feq a b -> feq (fC P lo hi a) (fC P lo hi b).
+Proof. intros H. unfold fC. apply fclamp_feq. apply fclamp_feq. exact H. Qed.
+
+(* ------------------------------------------------------------------ _floor *)
+Definition floorQ (x g : Q) : Q := inject_Z (Qfloor (x / g)) * g.
+
+Lemma floorQ_spec x g : 0 < g -> floorQ x g <= x /\ x < floorQ x g + g.
+Proof.
+  intros Hg. unfold floorQ.
+  pose proof (Qfloor_le (x / g)) as H1. pose proof (Qlt_floor (x / g)) as H2.
+  rewrite inject_Z_plus in H2. change (inject_Z 1) with 1 in H2.
+  assert (E : x == (x / g) * g) by (field; lra).
+  split.
+  - rewrite E at 2. apply Qmult_le_compat_r; [exact H1|lra].
+  - rewrite E at 1.
+    assert (x / g * g < (inject_Z (Qfloor (x / g)) + 1) * g) by (apply Qmult_lt_compat_r; lra). lra.
+Qed.
+
+Lemma floorQ_comp x y g : x == y -> floorQ x g == floorQ y g.
+Proof. intros H. unfold floorQ. rewrite H. reflexivity. Qed.
+
+(* an integral value is its own floor at granularity 1 *)
+Lemma floorQ_int z : floorQ (inject_Z z) 1 == inject_Z z.
+Proof.
+  unfold floorQ. assert (E : inject_Z z / 1 == inject_Z z) by (field).
+  rewrite E, Qround.Qfloor_Z. ring.
+Qed.
+
+Lemma floor_to_val n base x g : val n = Fin x -> val base = Fin g -> 0 < g ->
+  exists fl, floor_to n base = Ok fl /\ feq (val fl) (Fin (floorQ x g)).
+Proof.
+  intros Hn Hb Hg. unfold floor_to.
+  destruct (nfloordiv_val n base x g Hn Hb Hg) as [q [Eq Vq]]. rewrite Eq. cbn [bind].
+  destruct (nmul_val_fin q base _ g Vq Hb) as [fl [Ef Vf]]. exists fl. split; [exact Ef|exact Vf].
+Qed.
+
+(* the quotient only depends on the values, so equal values of the same type floor to the same object *)
+Lemma floor_to_near n base x g fl : val n = Fin x -> val base = Fin g -> 0 < g ->
+  floor_to n base = Ok fl -> fnear g (val fl) (val n).
+Proof.
+  intros Hn Hb Hg Hfl. destruct (floor_to_val n base x g Hn Hb Hg) as [fl' [E V]].
+  rewrite Hfl in E. inversion E; subst fl'. rewrite Hn.
+  destruct (val fl); cbn in V; try contradiction. cbn. pose proof (floorQ_spec x g Hg). lra.
+Qed.
+
+(* ------------------------------------------------------------------ one write *)
+Definition tdemand (st : std) : num := p_demand (s_tgt st).
+Definition wlo (st : std) : res num := nsub (p_supply (s_tgt st)) (backlog (s_par st)).
+Definition whi (st : std) : res num := nadd (p_supply (s_tgt st)) (surplus (s_par st)).
+Definition no_rounding (P : params) : bool := negb (nne (granularity P) (PInt 1)).
+
+(* what the setter does, in one equation per branch *)
+Lemma set_demand_inv st v st' : set_demand st v = Ok st' ->
+  exists d t, clamp_demand (s_par st) (s_tgt st) v = Ok d /\
+    st' = mkStd (s_par st) d (set_tdemand (s_tgt st) t) /\
+    ( (nne (granularity (s_par st)) (PInt 1) = true /\
+         exists fl, floor_to v (granularity (s_par st)) = Ok fl /\
+                    clamp_demand (s_par st) (s_tgt st) fl = Ok t)
+      \/ (nne (granularity (s_par st)) (PInt 1) = false /\ t = d) ).
+Proof.
+  unfold set_demand. destruct (clamp_demand _ _ v) as [d|] eqn:E1; cbn [bind]; [|discriminate].
+  destruct (nne _ _) eqn:En.
+  - destruct (floor_to _ _) as [fl|] eqn:E2; cbn [bind]; [|discriminate].
+    destruct (clamp_demand _ _ fl) as [t|] eqn:E3; cbn [bind]; [|discriminate].
+    intros H. inversion H. exists d, t. split; [reflexivity|]. split; [reflexivity|]. left. eauto.
+  - intros H. inversion H. exists d, d. split; [reflexivity|]. split; [reflexivity|]. right. auto.
+Qed.
+
+(* a write changes nothing but `_demand` and the target's demand *)
+Lemma set_demand_frame st v st' : set_demand st v = Ok st' ->
+  s_par st' = s_par st /\ p_supply (s_tgt st') = p_supply (s_tgt st)
+  /\ p_util (s_tgt st') = p_util (s_tgt st) /\ p_alloc (s_tgt st') = p_alloc (s_tgt st).
+Proof.
+  intros H. destruct (set_demand_inv _ _ _ H) as [d [t [_ [-> _]]]]. cbn. auto.
+Qed.
+
+(* (1) the forwarded value and the stored one lie within [minimum, maximum]: no further condition *)
+Lemma write_limits st v st' : valid (s_par st) -> set_demand st v = Ok st' ->
+  in_limits (s_par st) (tdemand st') /\ in_limits (s_par st) (s_demand st').
+Proof.
+  intros HV H. destruct (set_demand_inv _ _ _ H) as [d [t [Hd [-> Hb]]]]. unfold tdemand. cbn.
+  assert (Ld : in_limits (s_par st) d) by (eapply clamp_demand_limits; eassumption).
+  split; [|exact Ld].
+  destruct Hb as [[_ [fl [_ Ht]]]|[_ ->]]; [eapply clamp_demand_limits; eassumption|exact Ld].
+Qed.
+
+(* (2) and within the supply window whenever minimum/maximum leave room for that *)
+Lemma write_window st v st' lo hi : valid (s_par st) -> set_demand st v = Ok st' ->
+  wlo st = Ok lo -> whi st = Ok hi -> window_compatible (s_par st) lo hi ->
+  in_window lo hi (tdemand st') /\ in_window lo hi (s_demand st').
+Proof.
+  intros HV H Hlo Hhi Hc. destruct (set_demand_inv _ _ _ H) as [d [t [Hd [-> Hb]]]]. unfold tdemand. cbn.
+  assert (Wd : in_window lo hi d) by (eapply clamp_demand_window; eassumption).
+  split; [|exact Wd].
+  destruct Hb as [[_ [fl [_ Ht]]]|[_ ->]]; [eapply clamp_demand_window; eassumption|exact Wd].
+Qed.
+
+(* (3) no limit interferes with the rounded value: exactly that value is forwarded (same object) *)
+Lemma write_rounds st v st' lo hi fl :
+  set_demand st v = Ok st' -> wlo st = Ok lo -> whi st = Ok hi ->
+  nne (granularity (s_par st)) (PInt 1) = true ->
+  floor_to v (granularity (s_par st)) = Ok fl ->
+  in_window lo hi fl -> in_limits (s_par st) fl -> tdemand st' = fl.
+Proof.
+  intros H Hlo Hhi Hg Hfl HW HL. destruct (set_demand_inv _ _ _ H) as [d [t [Hd [-> Hb]]]].
+  unfold tdemand. cbn. destruct Hb as [[_ [fl' [Hfl' Ht]]]|[Hg' _]]; [|congruence].
+  rewrite Hfl in Hfl'. inversion Hfl'; subst fl'. eapply clamp_demand_id; eassumption.
+Qed.
+
+(* (3') granularity 1 (the "no limit" default): the code does not floor; the value itself is forwarded *)
+Lemma write_unrounded st v st' lo hi :
+  set_demand st v = Ok st' -> wlo st = Ok lo -> whi st = Ok hi ->
+  nne (granularity (s_par st)) (PInt 1) = false ->
+  in_window lo hi v -> in_limits (s_par st) v -> tdemand st' = v.
+Proof.
+  intros H Hlo Hhi Hg HW HL. destruct (set_demand_inv _ _ _ H) as [d [t [Hd [-> Hb]]]].
+  unfold tdemand. cbn. destruct Hb as [[Hg' _]|[_ ->]]; [congruence|]. eapply clamp_demand_id; eassumption.
+Qed.
+
+(* ... which for an int (any integral value) is the value rounded down to a multiple of 1 *)
+Lemma granularity_one P : nne (granularity P) (PInt 1) = false -> feq (val (granularity P)) (Fin 1).
+Proof.
+  unfold nne, neq, feqb. rewrite negb_false_iff, andb_true_iff, !fleb_le. intros [H1 H2].
+  cbn [val] in *. change (inject_Z 1) with 1 in *. apply fle_antisym; assumption.
+Qed.
+
+Lemma floor_of_int_at_one z g fl : feq (val g) (Fin 1) -> floor_to (PInt z) g = Ok fl -> feq (val fl) (Fin (inject_Z z)).
+Proof.
+  intros Hg Hfl. destruct (val g) as [gq| |] eqn:Eg; cbn [feq] in Hg; try contradiction.
+  assert (Hp : 0 < gq) by lra.
+  destruct (floor_to_val (PInt z) g (inject_Z z) gq eq_refl Eg Hp) as [fl' [E V]].
+  rewrite Hfl in E. inversion E; subst fl'. eapply feq_trans; [exact V|]. cbn [feq].
+  unfold floorQ.
+  assert (E' : inject_Z z / gq == inject_Z z) by (rewrite Hg; field).
+  rewrite (Qfloor_comp _ _ E'), Qround.Qfloor_Z, Hg. ring.
+Qed.
+
+(* (4) the value kept for reading back is less than one granule above the forwarded one *)
+Lemma write_near st v st' x g : valid (s_par st) -> set_demand st v = Ok st' ->
+  finite (val (p_supply (s_tgt st))) -> val v = Fin x -> val (granularity (s_par st)) = Fin g ->
+  fnear g (val (tdemand st')) (val (s_demand st')).
+Proof.
+  intros HV H Hs Hv Hg.
+  assert (Hgp : 0 < g). { pose proof (v_gran _ HV) as Hp. unfold positive in Hp. rewrite Hg in Hp. exact Hp. }
+  destruct (set_demand_inv _ _ _ H) as [d [t [Hd [-> Hb]]]]. unfold tdemand. cbn.
+  destruct Hb as [[_ [fl [Hfl Ht]]]|[_ ->]].
+  - destruct (clamp_demand_inv _ _ _ _ Hd) as [lo [hi [Hlo [Hhi _]]]].
+    rewrite (clamp_demand_val _ _ _ _ _ _ Hd Hlo Hhi), (clamp_demand_val _ _ _ _ _ _ Ht Hlo Hhi).
+    apply fC_near; [exact HV| |exact Hgp|].
+    + eapply window_ordered; try eassumption; [apply (v_backlog _ HV)|apply (v_surplus _ HV)].
+    + eapply floor_to_near; eassumption.
+  - destruct (val d); cbn; try exact I. lra.
+Qed.
+
+(* in the domain of the property a write always succeeds *)
+Lemma write_total st v x g : finite (val (p_supply (s_tgt st))) -> val v = Fin x ->
+  val (granularity (s_par st)) = Fin g -> 0 < g -> exists st', set_demand st v = Ok st'.
+Proof.
+  intros Hs Hv Hg Hgp. unfold set_demand.
+  destruct (clamp_demand_total (s_par st) (s_tgt st) v Hs) as [d ->]. cbn [bind].
+  destruct (nne _ _); [|eauto].
+  destruct (floor_to_val v _ x g Hv Hg Hgp) as [fl [-> _]]. cbn [bind].
+  destruct (clamp_demand_total (s_par st) (s_tgt st) fl Hs) as [t ->]. cbn [bind]. eauto.
+Qed.
+
+(* ------------------------------------------------------------------ one read *)
+Lemma fabs_ge_iff g r : fleb (Fin g) (fabs r) = false <-> match r with Fin d => Qabs d < g | _ => False end.
+Proof.
+  rewrite fleb_gt. destruct r; cbn; tauto.
+Qed.
+
+(* the getter's condition is exactly "a granule or more apart" (same infinities count as not moved) *)
+Lemma moved_false_iff d td gn g : val gn = Fin g ->
+  (moved d td gn = false <-> fclose g (val d) (val td)).
+Proof.
+  intros Hg. unfold moved. destruct (nsub d td) as [x|e] eqn:E.
+  - destruct (nsub_flt _ _ _ E) as [r [Er Fr]]. unfold nge. rewrite Hg.
+    assert (Ex : fleb (Fin g) (val (nabs x)) = fleb (Fin g) (fabs r)).
+    { unfold fleb. f_equal. apply fltb_feq; [|apply feq_refl].
+      eapply feq_trans; [apply nabs_val|]. destruct (val x), r; cbn in *; try tauto.
+      rewrite Fr. reflexivity. }
+    rewrite Ex, fabs_ge_iff.
+    destruct (val d), (val td); cbn in Er; inversion Er; subst; cbn; tauto.
+  - assert (He : fsub (val d) (val td) = Err ENaN).
+    { destruct d as [a|fa], td as [b|fb]; cbn [nsub] in E; unfold lift2 in E; try discriminate;
+        destruct (fsub _ _) as [r|e'] eqn:E'; try discriminate; f_equal; eapply fsub_err; exact E'. }
+    destruct (val d), (val td); cbn in He; try discriminate; cbn; tauto.
+Qed.
+
+Lemma get_demand_cases st :
+  (moved (s_demand st) (tdemand st) (granularity (s_par st)) = true /\
+     get_demand st = (tdemand st, mkStd (s_par st) (tdemand st) (s_tgt st)))
+  \/ (moved (s_demand st) (tdemand st) (granularity (s_par st)) = false /\ get_demand st = (s_demand st, st)).
+Proof.
+  unfold get_demand, tdemand. destruct (moved _ _ _); [left|right]; auto.
+Qed.
+
+(* a read never touches the target, and what it returns is afterwards what is stored *)
+Lemma get_demand_frame st : s_tgt (snd (get_demand st)) = s_tgt st /\ s_par (snd (get_demand st)) = s_par st
+  /\ s_demand (snd (get_demand st)) = fst (get_demand st).
+Proof. destruct (get_demand_cases st) as [[_ ->]|[_ ->]]; cbn; auto. Qed.
+
+(* after any read, the value returned is less than a granule from the target's demand *)
+Lemma read_close st g : val (granularity (s_par st)) = Fin g -> 0 < g ->
+  fclose g (val (fst (get_demand st))) (val (tdemand st)).
+Proof.
+  intros Hg Hgp. destruct (get_demand_cases st) as [[_ ->]|[Hm ->]]; cbn [fst].
+  - apply fclose_refl. exact Hgp.
+  - apply (moved_false_iff _ _ _ g Hg). exact Hm.
+Qed.
+
+(* reading a standardiser whose stored value is within a granule of the target changes nothing *)
+Lemma read_synced st g : val (granularity (s_par st)) = Fin g ->
+  fclose g (val (s_demand st)) (val (tdemand st)) -> get_demand st = (s_demand st, st).
+Proof.
+  intros Hg Hc. destruct (get_demand_cases st) as [[Hm _]|[_ E]]; [|exact E].
+  apply (moved_false_iff _ _ _ g Hg) in Hc. congruence.
+Qed.
+
+(* reading after the target moved a granule or more returns the target's demand *)
+Lemma read_resync st g : val (granularity (s_par st)) = Fin g ->
+  ~ fclose g (val (s_demand st)) (val (tdemand st)) -> fst (get_demand st) = tdemand st.
+Proof.
+  intros Hg Hc. destruct (get_demand_cases st) as [[_ ->]|[Hm _]]; [reflexivity|].
+  apply (moved_false_iff _ _ _ g Hg) in Hm. contradiction.
+Qed.
+
+(* (4) read-back right after a write: the limited, unrounded value; the state is unchanged *)
+Lemma read_after_write st v st' x g : valid (s_par st) -> set_demand st v = Ok st' ->
+  finite (val (p_supply (s_tgt st))) -> val v = Fin x -> val (granularity (s_par st)) = Fin g ->
+  get_demand st' = (s_demand st', st') /\ clamp_demand (s_par st) (s_tgt st) v = Ok (s_demand st')
+  /\ fclose g (val (s_demand st')) (val (tdemand st')).
+Proof.
+  intros HV H Hs Hv Hg.
+  pose proof (write_near _ _ _ _ _ HV H Hs Hv Hg) as Hn. apply fnear_close in Hn. destruct Hn as [Hc _].
+  destruct (set_demand_frame _ _ _ H) as [Ep _].
+  split; [|split; [|exact Hc]].
+  - apply (read_synced st' g); [rewrite Ep; exact Hg|exact Hc].
+  - destruct (set_demand_inv _ _ _ H) as [d [t [Hd [-> _]]]]. exact Hd.
+Qed.
